@@ -114,7 +114,7 @@ fn c16_boxed_hex_all_ascii() {
 }
 
 // ---------------------------------------------------------------- bytes: positional + mutually inverse
-//@ prop=C16,C11,C15 tier=quick profile=k64 funcs="U128::to_be_bytes,U128::to_le_bytes,Encoding::{to,from}_{be,le}_bytes,Uint::from_be_slice,Uint::from_le_slice,Int::to_be_bytes,Limb Encoding" bound="U128 / I128 / Limb: all values and all byte strings, symbolic byte index" free_bits=260
+//@ prop=C16,C11,C15 tier=quick profile=k64 funcs="U128::to_be_bytes,U128::to_le_bytes,Encoding::{to,from}_{be,le}_bytes,Uint::from_be_slice,Uint::from_le_slice,Int::to_be_bytes,Limb Encoding" bound="U128 / I128 / Limb: all values and all byte strings, symbolic byte index" free_bits=260 core=C15
 #[kani::proof]
 #[kani::unwind(20)]
 fn c16_uint2_bytes_positional() {
@@ -349,13 +349,13 @@ macro_rules! boxed_from_slice {
         }
     };
 }
-//@ name=c16_boxed_from_slice_p0 prop=C16,C11 tier=quick profile=k64 funcs="BoxedUint::from_be_slice,BoxedUint::from_le_slice" bound="bits_precision=0, every length 0..=2, every content" free_bits=20
+//@ name=c16_boxed_from_slice_p0 prop=C16,C11 tier=quick profile=k64 funcs="BoxedUint::from_be_slice,BoxedUint::from_le_slice" bound="bits_precision=0, every length 0..=2, every content" free_bits=20 core=C11
 boxed_from_slice!(c16_boxed_from_slice_p0, 0);
 //@ name=c16_boxed_from_slice_p7 prop=C16,C11 tier=quick profile=k64 funcs="BoxedUint::from_be_slice,BoxedUint::from_le_slice" bound="bits_precision=7, every length 0..=3, every content" free_bits=28
 boxed_from_slice!(c16_boxed_from_slice_p7, 7);
 //@ name=c16_boxed_from_slice_p9 prop=C16,C11 tier=quick profile=k64 funcs="BoxedUint::from_be_slice,BoxedUint::from_le_slice" bound="bits_precision=9, every length 0..=4, every content" free_bits=36
 boxed_from_slice!(c16_boxed_from_slice_p9, 9);
-//@ name=c16_boxed_from_slice_p64 prop=C16,C11 tier=quick profile=k64 funcs="BoxedUint::from_be_slice,BoxedUint::from_le_slice" bound="bits_precision=64, every length 0..=10, every content" free_bits=84
+//@ name=c16_boxed_from_slice_p64 prop=C16,C11 tier=quick profile=k64 funcs="BoxedUint::from_be_slice,BoxedUint::from_le_slice" bound="bits_precision=64, every length 0..=10, every content" free_bits=84 core=C11
 boxed_from_slice!(c16_boxed_from_slice_p64, 64);
 //@ name=c16_boxed_from_slice_p65 prop=C16,C11 tier=quick profile=k64 funcs="BoxedUint::from_be_slice,BoxedUint::from_le_slice" bound="bits_precision=65, every length 0..=11, every content" free_bits=92
 boxed_from_slice!(c16_boxed_from_slice_p65, 65);
@@ -368,7 +368,7 @@ boxed_from_slice!(c16_boxed_from_slice_p80, 80);
 //@ name=c16_boxed_from_slice_p8 prop=C16,C11 tier=thorough profile=k64 funcs="BoxedUint::from_be_slice,BoxedUint::from_le_slice" bound="bits_precision=8, every length 0..=3, every content" free_bits=28
 boxed_from_slice!(c16_boxed_from_slice_p8, 8);
 
-//@ prop=C16,C11,C15 tier=quick profile=k64 funcs="BoxedUint::to_be_bytes,BoxedUint::to_le_bytes,BoxedUint::widen,BoxedUint::shorten,BoxedUint::from_words,to_words,From<Uint> for BoxedUint,From<u*> for BoxedUint" bound="BoxedUint 2 limbs: all values; widen to 192, shorten to 64; symbolic byte index" free_bits=140
+//@ prop=C16,C11,C15 tier=quick profile=k64 funcs="BoxedUint::to_be_bytes,BoxedUint::to_le_bytes,BoxedUint::widen,BoxedUint::shorten,BoxedUint::from_words,to_words,From<Uint> for BoxedUint,From<u*> for BoxedUint" bound="BoxedUint 2 limbs: all values; widen to 192, shorten to 64; symbolic byte index" free_bits=140 core=C15
 #[kani::proof]
 #[kani::unwind(20)]
 fn c16_boxed_bytes_widen_shorten() {
